@@ -238,6 +238,27 @@ def announceM {V E : Type} [DecidableEq E] (o : Oracle V E) (caught : CbOutcome 
     ⟨c.es, c.msgs ++ (if c.completed then [(p, mkMsg (c.es p))] else [])⟩
   else ⟨setE es p (storeValue (es p) r), []⟩
 
+/-- one top-level call of the funnel on parameter `p` with what its callbacks do -/
+structure MEv (V E : Type) where
+  p : Nat
+  now : Int
+  r : VE V E
+  cbs : List (Cb V E)
+  deriving Repr
+
+/-- a history of top-level calls over the entries of all parameters -/
+def runM {V E : Type} [DecidableEq E] (o : Oracle V E) (caught : CbOutcome → Bool) :
+    (Nat → Entry V E) → List (MEv V E) → MOut V E
+  | es, [] => ⟨es, []⟩
+  | es, x :: xs =>
+    let out := announceM o caught es x.p x.now x.r x.cbs
+    let r := runM o caught out.es xs
+    ⟨r.es, out.msgs ++ r.msgs⟩
+
+/-- the messages of one parameter in a stream -/
+def projM {V E : Type} (q : Nat) (ms : List (Nat × Msg V E)) : List (Msg V E) :=
+  (ms.filter (fun m => m.1 == q)).map (·.2)
+
 /-! ### event producers -/
 
 /-- outcome of the driver's `read_<p>` -/
